@@ -211,7 +211,10 @@ CHECKS["C04"] = dict(
     level_note="Trusted: reference receiver in harness/tun/c04_test.go, memsock, hook constructor. Delivery order is C17's subject and not asserted here.",
     technique="rapid model-based testing of generated request streams and consumer stalls under testing/synctest virtual time (reference receiver model, multiset comparison)",
     assumptions=_TUN_ASSUME,
-    jobs=[dict(name="bubble", pkg="./tun", go=GO126, test="TestC04B", shards=(4, 16), checks=(1200, 20000), timeout=(600, 3000))],
+    jobs=[dict(name="bubble", pkg="./tun", go=GO126, test="TestC04B", shards=(4, 16), checks=(1200, 20000), timeout=(600, 3000)),
+          # the TCP clause through knx.NewGroupTunnel(UseTCP) and a kernel socket: the gateway writes its requests in two
+          # segments at drawn cuts and the last few as one burst
+          dict(name="sock", pkg="./sock", go=GO, test="TestC04Sock", shards=(2, 8), checks=(15, 300), timeout=(600, 3000))],
 )
 
 _RTR_ASSUME = ["A2 (memsock is a faithful model of the kernel sockets above the socket layer)",
@@ -350,7 +353,7 @@ CHECKS["C16"] = dict(
     assumptions=_SOCK_ASSUME,
     jobs=[dict(name="sock", pkg="./sock", go=GO, test="TestC16", shards=(4, 16), checks=(150, 3000), timeout=(600, 3000)),
           # a consumer that stays away from Inbound() for 1.1..2.6 s (thorough: up to 11 s) while 2..12 frames arrive
-          dict(name="slow-reader", pkg="./sock", go=GO, test="TestC16Slow", shards=(8, 16), checks=(2, 12), timeout=(600, 3000))],
+          dict(name="slow-reader", pkg="./sock", go=GO, test="TestC16Slow", shards=(8, 16), checks=(3, 12), timeout=(600, 3000))],
 )
 
 CHECKS["C20"] = dict(
@@ -395,23 +398,36 @@ CHECKS["C12"] = dict(
 
 # Later additions to the generators, inserted into the rule texts in front of their "Non-trivial =" sentence.
 RULE_ADDENDA = {
+    "C01": "One plan in 200 is a storm: 2..8 goroutines decode their own well-formed frames 30..100 times, each result compared "
+           "with the decode done alone.",
+    "C02": "A third of the plans edit 1..3 octets of (or append octets to) the reference encoding: what the decoder accepts and the "
+           "re-encoding reproduces must survive decode, re-encode, decode with the same value.",
+    "C05": "A quarter of the plans with >= 2 Sends let the gateway refuse telegrams (error status, counter advanced) on a link that "
+           "loses nothing.",
+    "C15": "Storm plans: 2..8 goroutines encode, decode and re-encode frames with names and description blocks 50..300 times.",
+    "C18": "All addresses are also formatted first and parsed afterwards (texts kept), and formatted and parsed by 8 goroutines at once.",
+    "C20": "A third of the search responses carry further well-formed description blocks.",
     "C03": "The real-reconnect plans let 0..3 requests be acknowledged before the unacknowledged one; the first request on a newly "
            "assigned channel must carry sequence number 0.",
-    "C08": "Every payload of 0..6 octets over {00 41 EF BB BF C3 80 FF} for the variable-length types; well-formed UTF-8 texts "
+    "C08": "A decode storm per main number (8 goroutines x 400 rounds). Every payload of 0..6 octets over {00 41 EF BB BF C3 80 FF} for the variable-length types; well-formed UTF-8 texts "
            "for the character-string types.",
-    "C11": "Mode overwide: every 8-bit sequence number and control code (also those wider than the field) x numbered x "
+    "C11": "Mode oversize-info: 256..1000 info octets. Mode overwide: every 8-bit sequence number and control code (also those wider than the field) x numbered x "
            "control/data, compared with the reference apart from the over-wide field's own bits.",
-    "C12": "Job sock, mode tunnel-duplex: the gateway tunnels indications stop-and-wait while the application sends 20..80 events.",
+    "C12": "Job sock, mode tunnel-duplex: the gateway tunnels indications stop-and-wait while the application sends 20..80 events; "
+           "mode tunnel-tcp: relays written in two segments at drawn cuts, the last ones as one burst.",
     "C13": "Scenario close-in-inhibit: the router is closed while a busy inhibit is running, with Sends pending and issued afterwards.",
-    "C16": "A quarter of the datagram plans are bursts of 17..64 small frames sent in one go while the reader is away 0..80 ms.",
-    "C04": "A quarter of the UDP plans let the gateway assign the same channel at every reconnect, a third of the reconnects have 1..4 "
+    "C16": "A quarter of the datagram plans are bursts of 17..64 small frames sent in one go while the reader is away 0..80 ms; the slow "
+           "job also lets the TCP peer stall 1.1..2.6 s (thorough: up to 11 s) inside a frame.",
+    "C04": "Job sock: a TCP group tunnel against a loopback gateway writing in segments and bursts. A quarter of the UDP plans let the gateway assign the same channel at every reconnect, a third of the reconnects have 1..4 "
            "in-sequence requests directly behind the connect response, stray connect responses arrive mid-stream, and a fraction of the "
            "telegrams are L_Data.con / L_Data.req.",
-    "C06": "Every 1-/2-byte payload and a fifth of the others are also decoded into a variable that holds the decode of the accepted "
+    "C06": "Values of string/slice kind are decoded from a copy of the payload, the copy is overwritten, and they must re-encode as "
+           "before. Every 1-/2-byte payload and a fifth of the others are also decoded into a variable that holds the decode of the accepted "
            "payload with the most bits set (rapid: a drawn earlier payload) and compared with a decode into a zero value.",
     "C14": "Job race: one lost indication with a count above everything retained arrives in the middle of a burst of 2..6 senders, "
            "nothing trimmed or failing.",
-    "C17": "On raw tunnels and routers a fraction of the telegrams are L_Data.con / L_Data.req. Job sock: a router (and group router) "
+    "C17": "On raw tunnels and routers a fraction of the telegrams are L_Data.con / L_Data.req. A sixth of the tunnel plans are "
+           "long-life plans (the application keeps pace for ~120 / 250..256 / 506..510 telegrams, then stalls during a burst). Job sock: a router (and group router) "
            "over real multicast, 0..3 busy indications then a burst of 2..80 indications.",
     "C19": "40 (thorough: 400) fresh child processes whose first Produce calls come from 16 goroutines at once; the slice "
            "ListSupportedTypes() returned is overwritten and the listing taken again; slices returned by Pack() are kept and must not change; numeric aliases (main-k).(sub+k*M) of every registered name are looked up.",
